@@ -60,6 +60,22 @@ def split_family(rng, n):
         out.append((a, b) if rng.random() < 0.85 else (b, a))
     return out
 
+def tall_family(rng, n):
+    """tall, narrow automata (sticks of 66-76 unary levels, a few side branches): the checkers recurse / stack as deep as the automaton is tall"""
+    out = []
+    for _ in range(n):
+        N = rng.randint(66, 76)
+        def stick(off, extra):
+            rules = [(0, off, ())] + [(2, off + i + 1, (off + i,)) for i in range(N)]
+            for _ in range(extra):
+                i = rng.randrange(N); rules.append((rng.choice([2, 5]), off + i + 1, (off + rng.randrange(i + 1),)))
+            return gen.TA([off + N], rules)
+        a = stick(0, rng.choice([0, 0, 2]))
+        b = stick(0, rng.choice([0, 1, 3]))
+        if rng.random() < 0.3: b.rules.pop(rng.randrange(len(b.rules)))
+        out.append((a, b))
+    return out
+
 def shared_family(rng, n):
     """both operands over ONE rule list (the driver builds them as two copies of one automaton: shared copy-on-write table) with their own final
     states; bases with duplicated states (split copies) so that inclusion holds between incomparable final sets, and states with empty language"""
@@ -97,6 +113,7 @@ def cases(rng, tier):
     for _ in range(400 if tier == "quick" else 8000):
         a, b = gen.defective_copies_pair(rng)
         cs.append(("incl %s %s" % (a.fmt(), b.fmt()), "defective_copies"))
+    for (a, b) in tall_family(rng, 3 if tier == "quick" else 60): cs.append(("incl %s %s" % (a.fmt(), b.fmt()), "tall_sticks"))
     for (a, b) in shared_family(rng, 1500 if tier == "quick" else 15000): cs.append(("incl %s %s" % (a.fmt(), b.fmt()), "shared_table"))
     n = 2000 if tier == "quick" else 40000
     for _ in range(n):
